@@ -17,7 +17,7 @@ pub fn def() -> PropDef {
         nontrivial,
         rule: "enumeration (by run index) of all 15 non-empty subsets of {Addr, OwningAddr, Sender, Caller} left alive after a generated conversion/drop program (handles derived along different conversion chains, some replaced by clones of themselves, dropped in random order), then: interval ticks counted on the virtual clock, every weak handle taken earlier upgraded, identity asked through every surviving callable handle, and Context::stop / Context::restart / weak self-upgrade issued from inside a handler reached through a surviving handle; x seeded schedules; non-trivial = the surviving subset is not the full set; distinct = distinct order of client-op and callback events",
         needed_probes: &["c15_upgrade_checked", "c15_ctx_op_checked", "c15_ticks_checked", "c15_identity_checked", "c15_subset_1", "c15_subset_8", "c15_subset_15"],
-        quick_runs: 100_000,
+        quick_runs: 200_000,
         thorough_runs: 1_000_000,
         block: 1,
         flavours: &["tokio"],
